@@ -199,20 +199,32 @@ func runCase(id int, seed uint64, cls, engine string, skipped []string, scratch 
 	// range_end is Backend.List underneath: same label). On the hooked TiKV a read BELOW the floor is made with the
 	// point read of the compaction record failing: an engine failure is no licence to serve it
 	var floor uint64
+	nreads := 0
 	readOnce := func(kind string, rev uint64, limit int64) (isErr bool, op string, faulted bool) {
 		eff := rev
 		if eff == 0 || kind == "count" {
 			eff = be.B.GetCurrentRevision()
 		}
-		if engine == engTiKVHooked && eff < floor {
+		// below the floor always; at or above it every other read: the code answers with the engine error, the model
+		// with the refusal of a read that cannot see the record (label CFaultRead)
+		nreads++
+		if engine == engTiKVHooked && kind != "streampart" && (eff < floor || nreads%2 == 0) {
 			faulted = true
 			atomic.StoreInt32(&recordFault, 1)
 			defer atomic.StoreInt32(&recordFault, 0)
 		}
 		if isEtcdKind(kind) {
-			return etcdRange(es, kind, rev, limit), lib.App("CList", lib.N(rev), lib.N(uint64(limit))), faulted
+			isErr, op = etcdRange(es, kind, rev, limit), lib.App("CList", lib.N(rev), lib.N(uint64(limit)))
+		} else {
+			isErr, op = doRead(be, sc, kind, rev, limit)
 		}
-		isErr, op = doRead(be, sc, kind, rev, limit)
+		if faulted {
+			frev := rev
+			if kind == "count" {
+				frev = 0
+			}
+			op = lib.App("CFaultRead", lib.N(frev))
+		}
 		return isErr, op, faulted
 	}
 
@@ -440,7 +452,7 @@ func main() {
 	} else if args.Tier == "search" {
 		n = 1200
 	}
-	w := lib.NewWriter(args, "C08", "c08", "From KB Require Import Model.C08Cases.", "c08_case", "c08_check", "c08_oracle", 400)
+	w := lib.NewWriter(args, "C08", "c08", "From KB Require Import Model.C08Cases.", "c08_case", "c08_check_v", "c08_oracle", 400)
 
 	type job struct {
 		cls, engine string
